@@ -61,3 +61,8 @@ package actionlint
 //@ func (*Visitor).visitJob
 //@   props C09
 //@   anchor
+
+// expression types are shared between the checks of a job (matrix / steps / needs types, the
+// context table, function signatures): an array type is never modified after its construction
+//@ immutable ArrayType.Elem C09 C10
+//@ immutable ArrayType.Deref C09 C10
